@@ -194,7 +194,10 @@ def summary(setmap: defaultdict[str, int], stream: TextIO = sys.stdout):
     for pset in sorted(setmap.keys(), key=len):
         name = "{" + ", ".join(sorted(pset)) + "}"
         count = setmap[pset]
-        percent = (float(setmap[pset]) / float(total)) * 100
+        if total == 0:
+            percent = float("nan")
+        else:
+            percent = (float(setmap[pset]) / float(total)) * 100
         data += [[name, str(count), f"{percent:.2f}"]]
         total_count += setmap[pset]
 
@@ -244,7 +247,7 @@ def clustering(
     # distance matrix and dendrogram do not change from run to run
     platforms = sorted(extract_platforms(setmap))
 
-    if len(platforms) == 1:
+    if len(platforms) < 2:
         log.error("clustering is not supported for a single platform.")
         return None
     util.ensure_ext(output_name, ".png")
